@@ -189,7 +189,7 @@ func (cm *connManager) handleNewTCPConn(regManager *cj.RegistrationManager, clie
 	deadline := time.Now().Add(timeout)
 	err = clientConn.SetDeadline(deadline)
 	if err != nil {
-		logger.Errorln("error occurred while setting deadline:", err)
+		logger.Errorln("error occurred while setting deadline:", generalizeErr(err))
 	}
 
 	if count < 1 {
@@ -1635,6 +1635,11 @@ func generalizeErr(err error) error {
 		}
 	}
 
-	// if it is not a well known error, return it
+	// if it is not a well known error, return it - without the endpoint addresses that the net
+	// package attaches, the callers log the result
+	var opErr *net.OpError
+	if errors.As(err, &opErr) {
+		return &net.OpError{Op: opErr.Op, Net: opErr.Net, Err: opErr.Err}
+	}
 	return err
 }
